@@ -154,8 +154,9 @@ func mkHandler(run **chainRun, h int, script [][]any) rux.HandlerFunc {
 		if !r.entered {
 			// the first handler of a request: whatever earlier requests did (errors, aborts, panics), the context is pristine
 			r.entered = true
-			if len(c.Errors) != 0 || c.FirstError() != nil || c.Length() != -1 {
-				r.log = append(r.log, []any{"residue", h, fmt.Sprintf("errors=%d length=%d", len(c.Errors), c.Length())})
+			_, recovered := c.Get(rux.CTXRecoverResult)
+			if len(c.Errors) != 0 || c.FirstError() != nil || c.Length() != -1 || recovered {
+				r.log = append(r.log, []any{"residue", h, fmt.Sprintf("errors=%d length=%d recovered-value-of-an-earlier-panic=%v", len(c.Errors), c.Length(), recovered)})
 			}
 		}
 		for _, op := range script {
